@@ -18,7 +18,7 @@ elab "#audit " ns:ident : command => do
   let md := env.header.moduleData[modIdx.toNat]!
   let mut lines : Array String := #[]
   for cname in md.constNames do
-    if !nsName.isPrefixOf cname then continue
+    if !(nsName.getPrefix.isPrefixOf cname) then continue
     if cname.isInternal then continue
     if (cname.toString.splitOn ".eq_").length > 1 || (cname.toString.splitOn ".match_").length > 1 then continue
     let some ci := env.find? cname | continue
